@@ -311,6 +311,8 @@ func c15(c *core.Ctx) {
 	c.P.BuildSSA()
 	c.Rule("C15.range", "every asymmetric constructor builds its algorithm only after both the local and the remote key passed `size < min || size > max` with an error return, and min/max equal the Part 7 limits (1024–2048 bit for Basic128Rsa15/Basic256, 2048–4096 bit for the SHA-256 policies)", 10)
 	c.Rule("C15.members", "per policy: encrypt uses the remote public key, decrypt and signature the local private key, verifySignature the remote public key; the encryption scheme and hash are the same on both sides and equal the profile, likewise the signature scheme; block size = remote key size, plaintext block = remote key size minus the padding constant that the scheme's Encrypt uses; signature lengths = own / remote key size; nonce length per profile", 5)
+	c.Rule("C15.hashfresh", "every digest in package uapolicy is computed with a hash object created in the same call (or Reset first): no hasher is kept in an algorithm object across Signature / Verify calls, where it would accumulate the bytes of earlier messages", 1)
+	hashFreshRule(c, "C15.hashfresh")
 	c.Rule("C15.blocks", "the block loops of RSAOAEP / PKCS1v15 Encrypt and Decrypt advance by a positive step: the minimum key size of every policy using the scheme exceeds the scheme's padding constant, Decrypt steps by the key size, and each loop assigns start = end", 4)
 
 	pk := c.P.Lib["uapolicy"]
@@ -559,4 +561,46 @@ func pssSaltRule(c *core.Ctx, rule string) {
 	if n == 0 {
 		c.Ob(rule, "uapolicy·rsa.SignPSS salt length", "-", false, "no rsa.SignPSS call found: the RSA-PSS suite is not implemented with crypto/rsa any more")
 	}
+}
+
+// hashFreshRule: a digest covers the bytes of this call only. Every Write on a hash.Hash in package uapolicy (also in
+// crypto_key's P_SHA helper) goes to a hash object that was created in the same function activation (the result of a
+// call such as crypto.Hash.New() or hmac.New(...)) — not to one that lives in a struct field or a package variable across
+// calls, unless a Reset() on that value dominates the Write. A hasher kept in the algorithm object makes the second
+// signature cover msg1||msg2: it verifies for bytes that were never signed and fails for the bytes that were.
+func hashFreshRule(c *core.Ctx, rule string) {
+	n := 0
+	for _, f := range libFns(c, "uapolicy") {
+		for _, call := range ssax.Calls(f) {
+			cc := call.Common()
+			if !cc.IsInvoke() || cc.Method.Name() != "Write" {
+				continue
+			}
+			nt, ok := cc.Value.Type().(*types.Named)
+			if !ok || nt.Obj().Pkg() == nil || nt.Obj().Pkg().Path() != "hash" {
+				continue
+			}
+			n++
+			fresh := false
+			where := ssax.Path(cc.Value)
+			for _, o := range ssax.Origins(cc.Value, nil, 0) {
+				if o.Call != nil || o.CallV != nil {
+					fresh = true
+				}
+				if o.Field != nil || o.Global != nil || o.Param != nil {
+					fresh = false
+					where = o.String()
+					break
+				}
+			}
+			reset := false
+			for _, c2 := range ssax.Calls(f) {
+				if c2.Common().IsInvoke() && c2.Common().Method.Name() == "Reset" && ssax.Path(c2.Common().Value) == ssax.Path(cc.Value) && ssax.Dominates(c2, call) {
+					reset = true
+				}
+			}
+			c.Ob(rule, fname(f)+"·hash.Write target", pos(c, call), fresh || reset, "the hash object is created in this call (or Reset before use): "+boolStr(fresh || reset)+" — "+where)
+		}
+	}
+	c.Count("hash.Hash Write sites in uapolicy", n)
 }
